@@ -14,7 +14,7 @@ package flight12
 //symgo:stub handshakecrypto.VerifyKeySignature (X.509 leaf parsing + signature verification) and handshakecrypto.VerifyServerCert (x509 chain building against RootCAs with the DNS name) are recorders returning an ARBITRARY verdict, except that an empty certificate list is always refused - which is what the real wrappers do first (proved by zzHcVerifySignature / zzHcVerifyChain in crypto_wrappers.go); their arguments are recorded and asserted on
 //symgo:stub elliptic.GenerateKeypair returns a fixed key pair; prf.PreMasterSecret (ECDH) is an uninterpreted function; prf.MasterSecret / ExtendedMasterSecret record the pre-master secret and return a marker; prf.VerifyDataServer is an uninterpreted function of (master secret, transcript) and records the master secret it is keyed with; prf.VerifyDataClient returns a constant; cipher suites are harness fakes registered through cfg.CustomCipherSuites whose Init records the authentication facts established so far
 //symgo:assume server messages reach the client's flight handlers through the handshake cache as complete, unfragmented messages whose header agrees with the cache metadata; a cache item at epoch 1 was decrypted with the keys installed by CipherSuite.Init (C05)
-//symgo:assume a client that configures no PSK callback has no PSK cipher suite in LocalCipherSuites (parseCipherSuites drops them), so a PSK suite is only ever negotiated by a client that holds a PSK
+//symgo:assume a client that configures no PSK callback has no PSK cipher suite in LocalCipherSuites (parseCipherSuitesForVersions drops them - proved in C11 zzSuiteParse), so a PSK suite is only ever negotiated by a client that holds a PSK
 //symgo:outside CertificateRequest / client certificate selection in flight5Generate (not part of authenticating the server); session resumption (no certificate exchange; C04 checks its Finished); which messages the Finished transcript covers (C04)
 
 import (
